@@ -144,7 +144,11 @@ Lemma by_items_id : by_items true tds cols names = (cols, names).
 Proof.
   unfold by_items. cbv zeta.
   pose proof others_are_value as Ho.
-  rewrite Ho. cbn [length Nat.ltb Nat.leb andb].
+  rewrite Ho.
+  assert (Hex : existsb (fun d => negb (memb (td_name d) names) && same_items (map fst [value_column vlab venc rows]) d) tds = false).
+  { destruct (existsb _ tds) eqn:E; [|reflexivity]. apply existsb_exists in E. destruct E as (d & Hd & E).
+    replace (memb (td_name d) names) with true in E by (symmetry; apply memb_In; apply in_map; exact Hd). discriminate. }
+  rewrite Hex. cbn [andb].
   generalize (seq 0 (length cols)). intros ks. induction ks as [|k ks IH]; cbn [fold_left]; [reflexivity|].
   rewrite by_items_step_id. exact IH.
 Qed.
